@@ -16,10 +16,12 @@ impl Code {
     pub fn parse(interpreter: &Interpreter, script: &str) -> Result<Self, Error> {
         let parse = SimpleSLParser::parse(Rule::input, script)?;
         let mut local_variables = LocalVariables::new(interpreter);
+        // the folding pass keeps its own scope: a redeclaration like `x := *x` must still see the old `x`
+        let mut recreate_variables = LocalVariables::new(interpreter);
         let instructions = parse
             .map(|pair| {
                 InstructionWithStr::new(pair, &mut local_variables)
-                    .and_then(|iws| Ok(iws.recreate(&mut local_variables)?))
+                    .and_then(|iws| Ok(iws.recreate(&mut recreate_variables)?))
             })
             .collect::<Result<_, Error>>()?;
         Ok(Self { instructions })
